@@ -57,3 +57,87 @@ UNITS_C03 = [
          allowed_raise=lambda ctx: BoolVal(False)),
 ]
 UNITS = UNITS_C10 + UNITS_C03
+
+
+# ------------------------------------------------------------------------------------------------ default hook bodies
+# What an item / frame / context gets when NO customisation is registered for it (the fall-back of the singledispatch and
+# code_dispatch functions): nothing is unwrapped (C03/C10: the item is a leaf), nothing is elaborated (C11: the context stays as
+# it is), and the only default elaboration of a frame is the __tracebackhide__ convention.
+def hook_setup(names):
+    def setup(ex, p):
+        args = {}
+        for n in names:
+            args[n] = sym_any(p, n)
+        p.env.update(args)
+        return args
+    return setup
+
+
+def heap_unchanged(ctx):
+    """the whole heap after the call equals the heap before it (every field array, every container, every dict, the allocation mark)"""
+    H, H0 = ctx.H, ctx.H0
+    names = sorted(set(H.fields) | set(H0.fields))
+    return And(H.alloc == H0.alloc, H.lo == H0.lo, H.hi == H0.hi, H.el == H0.el, H.dk == H0.dk, H.dv == H0.dv, H.dn == H0.dn,
+               *[H.field(n) == H0.field(n) for n in names])
+
+
+def ef_setup(ex, p):
+    frame = sym_ref(p, "frame", "Frame")
+    pyframe = sym_ref(p, "pyframe", "frame")
+    loc = sym_ref(p, "f_locals", "dict")
+    p.setf(frame.t, "pyframe", pyframe.t)
+    p.setf(pyframe.t, "f_locals", loc.t)
+    nxt = sym_any(p, "next_inner")
+    p.env.update(frame=frame, next_inner=nxt)
+    ex.unit_args = dict(frame=frame, loc=loc, H0=p.snap())
+    return ex.unit_args
+
+
+def ef_post(ctx):
+    f = ctx.args["frame"].t
+    H, H0 = ctx.H, ctx.H0
+    names = sorted((set(H.fields) | set(H0.fields)) - {"hide"})
+    hide_arr = z3.Store(H0.field("hide"), Val.a(f), H.getf(f, "hide"))
+    return And(Val.is_none(ctx.result.t),
+               # frame: the only write is frame.hide, and it can only become True
+               H.alloc == H0.alloc, H.lo == H0.lo, H.hi == H0.hi, H.el == H0.el, H.dk == H0.dk, H.dv == H0.dv, H.dn == H0.dn,
+               *[H.field(n) == H0.field(n) for n in names], H.field("hide") == hide_arr,
+               Or(H.getf(f, "hide") == H0.getf(f, "hide"), H.getf(f, "hide") == mkbool(True)))
+
+
+def ef_hidden_iff_marker(ctx):
+    """the frame is hidden by default exactly when its locals contain __tracebackhide__ (else its hide flag is left alone)"""
+    f, loc = ctx.args["frame"].t, ctx.args["loc"].t
+    marked = ctx.p.ghost.get("tracebackhide_test")
+    if marked is None:
+        return BoolVal(False)
+    return ctx.H.getf(f, "hide") == If(marked, mkbool(True), ctx.H0.getf(f, "hide"))
+
+
+def m_locals_contains(ex, p, container, item):
+    if item.get("pyconst") != "__tracebackhide__":
+        raise Unsupported("membership test on f_locals with another key")
+    b = z3.Bool("locals_has___tracebackhide__")
+    p.ghost["tracebackhide_test"] = b
+    return b
+
+
+def default_hook(unit, func, names):
+    return Unit(unit, CU + func, hook_setup(names),
+                post=[Clause(unit + ".returns_none_and_writes_nothing", lambda ctx: And(Val.is_none(ctx.result.t), heap_unchanged(ctx)))],
+                bindings=dict(EXTRACT_BINDINGS), methods=dict(STD_METHODS), known_classes=KNOWN, allowed_raise=lambda ctx: BoolVal(False))
+
+
+UNITS_DEFAULTS = [
+    default_hook("C10.default.unwrap_stackitem", "unwrap_stackitem", ["item"]),
+    default_hook("C11.default.unwrap_context", "unwrap_context", ["manager", "context"]),
+    default_hook("C11.default.unwrap_context_generator", "unwrap_context_generator", ["frame", "context"]),
+    default_hook("C11.default.elaborate_context", "elaborate_context", ["manager", "context"]),
+    Unit("C10.default.elaborate_frame", CU + "elaborate_frame", ef_setup,
+         post=[Clause("C10.default.elaborate_frame.returns_none_and_only_sets_hide", ef_post),
+               Clause("C10.default.elaborate_frame.hidden_iff_tracebackhide_local", ef_hidden_iff_marker)],
+         bindings=dict(EXTRACT_BINDINGS), methods={**STD_METHODS, ("localsdict", "__contains__"): m_locals_contains},
+         field_types={"f_locals": "localsdict", "pyframe": "frame"}, known_classes=KNOWN, allowed_raise=lambda ctx: BoolVal(False),
+         assumptions=["frame.pyframe.f_locals is a mapping whose membership test is pure (CPython builds a dict snapshot)"]),
+]
+UNITS = UNITS_C10 + UNITS_C03 + UNITS_DEFAULTS
